@@ -83,6 +83,15 @@ def s2(name):
         # hand-written dataclasses may use soft keywords and builtin names as field names
         return Catalogue("s2-names", [Shape("M", [_n(F("type", 1, "int32")), _n(F("match", 2, "string")), F("case", 3, "bool"), _n(F("id", 4, "int64")),
                                                   _n(F("list", 5, "uint32", "repeated")), _n(F("str", 6, "string", "optional"))])], E)  # fmt: skip
+    if name == "nested-oneof":
+        # a sub-message whose only content can be a oneof member (possibly holding its default): its presence hangs on that member
+        return Catalogue("s2-nested-oneof", [Shape("Inner", [_n(F("num", 1, "int32", group="g")), _n(F("txt", 2, "string", group="g"))]), Shape("M", [
+            F("inner", 1, "message", msg="Inner"), _n(F("tail", 2, "int32")), F("rep", 3, "message", "repeated", msg="Inner"),
+            F("m", 4, "message", "map", key="string", msg="Inner")])], E)  # fmt: skip
+    if name == "mapchoice":
+        # map values / list elements that are messages whose content is a oneof member (possibly holding its default) or an empty sub-message
+        return Catalogue("s2-mapchoice", [leaf, Shape("Choice", [_n(F("count", 1, "int32", group="g")), _n(F("label", 2, "string", group="g")), F("leaf", 3, "message", group="g", msg="Leaf")]),
+                                          Shape("M", [F("m", 1, "message", "map", key="string", msg="Choice"), F("r", 2, "message", "repeated", msg="Choice")])], E)  # fmt: skip
     if name == "oneofs-nil":
         # oneof groups with members of a message type without fields (assigning one is all that can be said about it)
         return Catalogue("s2-oneofs-nil", [leaf, Shape("Nil", []), Shape("M", [
@@ -106,7 +115,7 @@ def s2(name):
     raise KeyError(name)
 
 
-S2_NAMES = ["mixed", "oneofs", "nested", "recursive", "mutual", "repmsg", "mapmsg", "optionals", "wrappers", "wrappers2", "names", "maps2", "emptymsg", "packed"]
+S2_NAMES = ["mixed", "oneofs", "nested", "recursive", "mutual", "repmsg", "mapmsg", "optionals", "wrappers", "wrappers2", "names", "maps2", "emptymsg", "nested-oneof", "mapchoice", "packed"]
 S1_KINDS = SCALARS + ["enum", "message"] + ["wrap:" + k for k in WRAPPER_OF]
 S1_MAP_VALUES = ["int32", "string", "bytes", "enum", "message", "double"]
 
